@@ -87,7 +87,7 @@ class C06(Prop):
                       "order": r.choice(["bottom_up", "top_down", "shuffled", "shuffled"]),
                       "positional_rate": r.choice([0.0, 0.3, 0.6])}
         cfg["render"] = {"ws": r.choice(["plain", "wild"]), "comment_rate": r.choice([0.0, 0.15]),
-                         "wire_kw": r.choice(["wire", "wire", "reg"]), "group_decls": r.random() < 0.3, "defparam": r.random() < 0.3}
+                         "wire_kw": r.choice(["wire", "wire", "reg"]), "group_decls": r.random() < 0.3, "defparam": r.random() < 0.3, "split_attrs": r.random() < 0.3}
         cfg["prior_rejected"] = r.random() < 0.2   # an earlier, refused read in the same process
         return cfg
 
